@@ -186,12 +186,15 @@ fn setup(o: &Opts, scratch: &Path, only_complete_reference: bool) -> Result<Ctx,
     }
     let launcher = Launcher { bin_dir, allowed: allowed_cpus(), child_timeout: Duration::from_secs(180) };
     std::fs::create_dir_all(scratch).unwrap_or_else(|e| harness_fail(&format!("scratch: {e}")));
-    let expected_docs = shipped.constants.len();
+    let expected_docs = shipped.docs();
+    if !shipped.refused.is_empty() {
+        eprintln!("simctl: the library of this tree refuses to decode {} shipped constant(s) (e.g. {}); their words are asked for all the same", shipped.refused.len(), shipped.refused[0].why);
+    }
 
     // phrases
     let mut qprime: Vec<String> = Vec::new();
-    for c in &shipped.constants {
-        let words: Vec<&str> = c.tokens.iter().map(|t| t.as_ref()).collect();
+    for toks in &shipped.all_tokens() {
+        let words: Vec<&str> = toks.iter().map(|t| t.as_str()).collect();
         if let Some(f) = shipped::typed_forms(&words).into_iter().next() {
             if !qprime.contains(&f) {
                 qprime.push(f);
@@ -265,7 +268,7 @@ fn setup(o: &Opts, scratch: &Path, only_complete_reference: bool) -> Result<Ctx,
             let alauncher = Launcher { bin_dir: bin.clone(), allowed: allowed_cpus(), child_timeout: Duration::from_secs(180) };
             let agold = Paths::new(scratch.join("alt-gold").join("xdg"));
             dirstate::wipe(&agold).unwrap_or_else(|e| harness_fail(&e.to_string()));
-            let asession = Session { cpus: 1, faults: vec![], ops: vec![Op::Open { slot: 0, mode: Mode::Disk, plan: Plan::default() }], expected_docs: ashipped.constants.len(), repo: repo.clone(), alt: true };
+            let asession = Session { cpus: 1, faults: vec![], ops: vec![Op::Open { slot: 0, mode: Mode::Disk, plan: Plan::default() }], expected_docs: ashipped.docs(), repo: repo.clone(), alt: true };
             let aout = alauncher.simnode(&agold, &scratch.join("alt-gold"), "gold", &asession, 0);
             let ainfo = dirstate::inspect(&agold, &ashipped);
             let (av, ah) = match &ainfo.meta {
